@@ -11,7 +11,7 @@ Lemma step_spur_prod s i s' : Rex lims s -> exec P s (LSpur (S (S i))) = Some s'
 Proof.
   intros (p0 & st0 & r0 & c0 & l0 & cu0 & p1 & st1 & r1 & c1 & l1 & cu1 & om & Ht0 & Ht1 & HOM & Hn & Hpa & Hf &
           Hnm0 & Hnm1 & Hok0 & Hok1 & Hx & Hreg & Hc0 & Hc1 & Homok & Homlt & HOT & HownO & Hwq0 & Hwq1 & HwqO &
-          Hv0 & Hv1 & Hal & Hq & HG & Hran & Hsub & HPR) E.
+          Hv0 & Hv1 & Hal & Hq & HW & HG & Hran & Hsub & HPR) E.
   unfold exec in E. rewrite Hf, Hn in E.
   destruct (S (S i) <? 2 + NP lims) eqn:Elt; cbn [negb] in E; [|discriminate E].
   apply Nat.ltb_lt in Elt. assert (Hi : i < NP lims) by lia.
@@ -69,7 +69,7 @@ Proof.
   intros R. apply Rex_reach in R.
   destruct R as (p0 & st0 & r0 & c0 & l0 & cu0 & p1 & st1 & r1 & c1 & l1 & cu1 & om & Ht0 & Ht1 & HOM & Hn & Hpa & Hf &
           Hnm0 & Hnm1 & Hok0 & Hok1 & Hx & Hreg & Hc0 & Hc1 & Homok & Homlt & HOT & HownO & Hwq0 & Hwq1 & HwqO &
-          Hv0 & Hv1 & Hal & Hq & HG & Hran & Hsub & HPR).
+          Hv0 & Hv1 & Hal & Hq & HW & HG & Hran & Hsub & HPR).
   split; [exact Hf|]. split; [|split; [|split; [|split]]].
   - apply nodup_by_key. intros k.
     destruct (le_lt_dec 2 k) as [H2|H2].
@@ -86,9 +86,9 @@ Proof.
   - intros i Hi. destruct (HPR i Hi) as (pp & stp & rp & cp & _ & _ & _ & _ & _ & Hsu). eexists. exact Hsu.
   - intros Hd. rewrite Ht0 in Hd. cbn in Hd. subst st0.
     cbn in Hok0. apply Nat.eqb_eq in Hok0. subst p0.
-    destruct Hq as (_ & _ & Hq3). specialize (Hq3 eq_refl).
+    destruct Hq as (_ & _ & Hq3 & _). specialize (Hq3 eq_refl).
     cbn in Hc0. destruct cu0; [discriminate Hc0|].
-    unfold cross in Hx. rewrite !andb_true_iff in Hx. destruct Hx as [[[_ Hd1] _] _].
+    unfold cross in Hx. rewrite !andb_true_iff in Hx. destruct Hx as [[[[[_ Hd1] _] _] _] _].
     cbn in Hd1. destruct st1; try discriminate Hd1.
     cbn in Hok1. apply Nat.eqb_eq in Hok1. subst p1.
     cbn in Hc1. destruct cu1; [discriminate Hc1|].
